@@ -14,3 +14,8 @@ func init() {
 func init() {
 	props["C02"] = &propInfo{engine: "A", level: "model_checking", assume: schedAssume, minOutcomes: 1}
 }
+
+func init() {
+	props["C12"] = &propInfo{engine: "A", level: "model_checking", assume: schedAssume, minOutcomes: 1}
+	props["C11"] = &propInfo{engine: "A", level: "model_checking", assume: schedAssume, minOutcomes: 1}
+}
